@@ -57,6 +57,11 @@ def run(tier):
     res["violations"] += r2["violations"]
     for k in ("states", "transitions", "traces_validated_against_impl", "evaluations", "distinct_nontrivial"):
         res["coverage"][k] += r2["coverage"].get(k, 0)
+    # the descriptor-level account (shared descriptors of clones, references in flight, cascading destruction of
+    # queues, process exit) agrees with the handle-level predicates the behaviours above were generated from
+    uh = [("q", dict(chans=2, procs=2, maxops=6))] if tier == "quick" else [
+        ("t2", dict(chans=2, procs=2, maxops=8)), ("t3", dict(chans=3, procs=2, maxops=5))]
+    chancheck.add_unix_handles("C09", res, chancheck.workdir("c09"), uh)
     res["coverage"]["unmatched_schedules"] = r2["coverage"].get("unmatched_schedules", 0)
     res["coverage"]["samples"] += r2["coverage"]["samples"][:2]
     res["assumptions"] = ["SIGPIPE is reset to SIG_DFL in the harness processes: a signal-terminated agent shows up as a "
